@@ -5,7 +5,7 @@ import operator
 
 from packaging.specifiers import InvalidSpecifier as PkgInvalidSpecifier
 from packaging.specifiers import Specifier, SpecifierSet
-from packaging.version import Version
+from packaging.version import InvalidVersion, Version
 
 from dep_logic.specifiers.arbitrary import ArbitrarySpecifier
 from dep_logic.specifiers.base import (
@@ -109,8 +109,12 @@ def parse_version_specifier(spec: str) -> BaseSpecifier:
         pkg_spec = SpecifierSet(spec)
     except PkgInvalidSpecifier as e:
         raise InvalidSpecifier(str(e)) from e
-    else:
+    try:
         return from_specifierset(pkg_spec)
+    except InvalidVersion as e:
+        # SpecifierSet matches its operands case-insensitively in unicode mode and
+        # lets through a few spellings that Version() itself refuses
+        raise InvalidSpecifier(str(e)) from e
 
 
 __all__ = [
